@@ -804,6 +804,12 @@ func (ts *Terms) call(x *ssa.Call, fr *Frame, depth int) *Term {
 			}
 		}
 	}
+	// bytes.Join([][]byte{a, b}, nil) and slices.Concat(a, b) spell append(a, b...)
+	if (pkg == "bytes" && name == "Join" && len(c.Args) == 2 && arg(1).Op == "nil") || (pkg == "slices" && name == "Concat" && len(c.Args) == 1) {
+		if l := arg(0); l.Op == "call" && l.Name == "varargs" && len(l.Args) > 0 {
+			return mk("call", "append", l.Args...)
+		}
+	}
 	sdkT := "github.com/cosmos/cosmos-sdk/types"
 	switch {
 	case pkg == sdkT && name == "AccAddressFromBech32":
